@@ -18,6 +18,30 @@ CHECKS = {
         design="6/C02"),
 }
 
+CHECKS["C06"] = dict(
+    level="model_checking",
+    text="Wal.tla (one action per instrumented step of write_entry / rotate / checkpoint, Crash between any two, recovery as a "
+         "function of the disk image) is model-checked exhaustively over all short histories x crash points x two crash-recover "
+         "cycles; each of the six deviations found on the pinned tree is a flag that must yield a counterexample. Real histories "
+         "(incl. >2000-operation segments forcing rotation) are run with the state directory copied at every crash point and at "
+         "byte truncations of the record in flight; each image is reopened with the real recovery and judged by Trace_Wal.tla "
+         "(recovered state is the pre- or post-state of the operation in flight, clean restart = full state, counter monotone).",
+    note="Process-crash model (data handed to write(2) survives; no power loss). Trusted: directory copy at a hook = crash image, "
+         "harness token projection of keys/values, TLC. One recorded finding: a crash inside batch_update recovers a partial batch.",
+    technique="TLA+ spec + TLC exhaustive (crash at every step); crash-point fault enumeration on the real code validated by a TLA+ trace acceptor",
+    design="6/C06")
+CHECKS["C07"] = dict(
+    level="model_checking",
+    text="Same specification and driver as C06; quiescent images are damaged (bit flips in payload, length prefix, snapshot header "
+         "and body, truncation inside and at record boundaries, appended garbage, duplicated records, records transplanted from "
+         "another store) and reopened; Trace_Wal.tla decides: recovery completes without panic, detectable damage is reported, "
+         "no value is invented or moved between keys, exactly the records before the damage (and behind it when framing is "
+         "intact) are honoured, peak allocation stays proportional to the directory size.",
+    note="Trusted: harness WAL frame parser describing the file layout to the acceptor, counting allocator (peak during reopen), "
+         "TLC. Snapshot damage is judged by NoInvention/DamageReported only (expected exact state not defined by the property).",
+    technique="TLA+ trace acceptor over damage-injection runs of the real recovery; design model shared with C06",
+    design="6/C07")
+
 NOT_YET = {}
 
 HOOK_COMMITS = []
